@@ -67,11 +67,11 @@ def _confirm(ctx, findings):
         if cur is None or len(f["beh"]) < len(cur["beh"]):
             by_sig[f["sig"]] = f
     for i, (sig, f) in enumerate(sorted(by_sig.items())):
-        again, _ = C07.drive_and_validate(ctx, [f["beh"]], "repro%d" % i, CLAUSES)
+        again, _ = C07.drive_and_validate(ctx, [f["beh"]], "repro%d" % i, CLAUSES, seeds=[f["wseed"]])
         same = [g for g in map(_refine, again) if g["sig"] == sig]
         if not same:
             raise vlib.Infra("counter-example not reproduced: %s" % sig)
-        ctx.violation(sig, what(same[0]), {"behaviours": [f["beh"]]})
+        ctx.violation(sig, what(same[0]), {"behaviours": [f["beh"]], "seeds": [f["wseed"]]})
 
 
 def run(ctx):
@@ -112,9 +112,9 @@ def run(ctx):
 def replay(ctx, path):
     with open(path) as f:
         obj = vlib.json.load(f)
-    findings, _ = C07.drive_and_validate(ctx, obj["behaviours"], "replay", CLAUSES)
+    findings, _ = C07.drive_and_validate(ctx, obj["behaviours"], "replay", CLAUSES, seeds=obj.get("seeds"))
     done = set()
     for f in map(_refine, findings):
         if f["sig"] not in done:
             done.add(f["sig"])
-            ctx.violation(f["sig"], what(f), {"behaviours": [f["beh"]]})
+            ctx.violation(f["sig"], what(f), {"behaviours": [f["beh"]], "seeds": [f["wseed"]]})
